@@ -185,6 +185,8 @@ def run(rep: vk.Report):
                                      "jac_path": jn, "grad_path": gn, "V": [t.name for t in V],
                                      "after_parameter_update": dict(ppts) if rnd == 2 else None})
     tree_fails = trees.run()
+    # ---- derivatives of formulas AS WRITTEN (independent NumPy function, finite differences), the same object under two orders
+    wd_checked, wd_bad = common.written_derivatives(rep, rng, 2 if rep.tier == "quick" else 40, "jac", "C03")
     num_fails, num_und = common.run_classify(IMPORTS + " SemI HarnessI", DEFS, NUM_TYPE, nums, NUM_CHECKER) if nums else ([], [])
 
     from checks.c02 import central_difference_witness
@@ -216,6 +218,8 @@ def run(rep: vk.Report):
                                    "entry": [m["i"], m["j"]], "observed": m["obs"]}}, concrete=True)
 
     cov = rep.coverage
+    cov["derivatives_of_formulas_as_written_vs_finite_differences"] = wd_checked
+    cov["derivatives_of_formulas_as_written_disagreements"] = wd_bad
     cov["entries_whose_true_value_exceeds_binary64"] = excused
     cov["evaluations"] = len(trees.terms) + len(nums)
     cov["distinct_nontrivial"] = trees.nontrivial
